@@ -701,6 +701,68 @@ def gen_range_cast(tier):
                 return g.build()
 
             yield f"range_cast/{nm}/s{start}_l{limit}_d{delta}/{wrap}", build
+    # every operator the REAL range proof looks through (its whitelist is read from the code under
+    # test), with the operator's other operands chosen adversarially: an operator that can introduce a
+    # value which is not an element of its first input (Pad's fill, Where's other branch, ...) lets a
+    # value outside the intermediate type pass the proof
+    try:
+        import jax2onnx.converter.ir_optimizations as iro
+
+        through = sorted(getattr(iro, "_INTEGER_VALUE_PRESERVING_OPS", ()))
+    except Exception:
+        through = []
+    I64 = lambda v: np.array(v, dtype=np.int64)
+    BIG = 2 ** 40 + 5
+
+    def wrap_op(g, op, x, length):
+        if op == "Identity":
+            return g.node("Identity", [x])
+        if op == "Reshape":
+            return g.node("Reshape", [x, g.const(I64([1, -1]))])
+        if op == "Flatten":
+            return g.node("Flatten", [x], axis=0)
+        if op == "Squeeze":
+            return g.node("Squeeze", [g.node("Unsqueeze", [x, g.const(I64([0]))]), g.const(I64([0]))])
+        if op == "Unsqueeze":
+            return g.node("Unsqueeze", [x, g.const(I64([1]))])
+        if op == "Transpose":
+            return g.node("Transpose", [g.node("Unsqueeze", [x, g.const(I64([0]))])], perm=[1, 0])
+        if op == "Expand":
+            return g.node("Expand", [x, g.const(I64([2, length]))])
+        if op == "Pad":
+            return g.node("Pad", [x, g.const(I64([1, 2])), g.const(I64(BIG))], mode="constant")
+        if op == "Where":
+            return g.node("Where", [g.const(np.array([True] + [False] * (length - 1))), x, g.const(I64(BIG))])
+        if op == "Concat":
+            return g.node("Concat", [x, g.const(I64([BIG]))], axis=0)
+        if op in ("Add", "Sub", "Mul", "Max", "Min"):
+            return g.node(op, [x, g.const(I64(BIG if op != "Mul" else 2 ** 20))])
+        if op in ("Neg", "Abs"):
+            return g.node(op, [x])
+        if op == "Slice":
+            return g.node("Slice", [x, g.const(I64([0])), g.const(I64([max(1, length - 1)]))])
+        if op == "Tile":
+            return g.node("Tile", [x, g.const(I64([2]))])
+        if op == "Gather":
+            return g.node("Gather", [x, g.const(I64([0, length - 1]))], axis=0)
+        if op == "ScatterND":
+            return g.node("ScatterND", [x, g.const(I64([[0]])), g.const(I64([BIG]))])
+        if op in ("CumSum",):
+            return g.node("CumSum", [x, g.const(I64(0))])
+        return g.node(op, [x])  # unknown operator: tried as a unary node; an invalid graph is skipped
+
+    for op in through:
+        for nm, (tp, lo, hi) in narrow.items():
+            for start, limit in ((0, 4), (hi - 3, hi + 1), (lo, lo + 4)):
+                def build(op=op, nm=nm, start=start, limit=limit):
+                    g = GB()
+                    n = g.inp("n", TP.INT64, ())
+                    x = g.node("Range", [g.const(I64(start)), g.const(I64(limit)), g.const(I64(1))])
+                    x = wrap_op(g, op, x, limit - start)
+                    g.out(g.node("Add", [g.node("Cast", [g.node("Cast", [x], to=narrow[nm][0])], to=TP.INT64), n]))
+                    return g.build()
+
+                yield f"range_cast/through_{op}/{nm}/s{start}_l{limit}", build
 
 
 FAMILIES = {
